@@ -676,6 +676,26 @@ def run(ctx):
                        "mapping (imbalance 3 at node N1 in the third interval)" % "; ".join("%s (%s)" % (why, p.where(n)) for n, why in bad[:3]),
                        node=(bad[0][0] if bad else m.node))
 
+    # ... and the helpers of the set-ups: no method of an asset / portfolio decides by probing what an earlier call left on the object
+    for ci in sorted(p.classes.values(), key=lambda c: c.name):
+        if not (p.is_subclass(ci, "Asset") or ci.name == "Portfolio"):
+            continue
+        for mname, m in sorted(ci.methods.items()):
+            if mname in SETUPS or mname == "__init__":
+                continue
+            bad = []
+            for n in au.walk_local(m.node, include_self=False):
+                if isinstance(n, ast.Call) and isinstance(n.func, ast.Name) and n.func.id in ("hasattr", "getattr") and len(n.args) >= 2 \
+                        and isinstance(n.args[0], ast.Name) and n.args[0].id == "self":
+                    nm = au.const_str(n.args[1])
+                    if nm != "timegrid" and nm not in ctor_attrs.get(ci.name, set()):
+                        bad.append((n, nm))
+            ctx.ob("C10.h", m, "no probe of state left by an earlier call", not bad,
+                   "%s decides by %s: the attribute is not set by the constructor - it is whatever an earlier set-up of the same object left there "
+                   "(positions of start / shutdown variables recorded for another grid or other prices), so the problem depends on the set-ups before "
+                   "it (fresh asset: 72 restrictions, re-used asset: 96)" % (m.qualname, "; ".join("%s(self, %r) at %s" % (n.func.id, nm, p.where(n)) for n, nm in bad[:3])),
+                   node=(bad[0][0] if bad else m.node), trivial=not bad)
+
     # ------------------------------------------------------------ C10.i: a received grid is handed on
     for fn in sorted(p.all_functions(), key=lambda f: f.qualname):
         if fn.parent is not None:
